@@ -189,13 +189,20 @@ Proof.
   eapply J4_flag; [exact H | reflexivity | reflexivity | exact E | reflexivity | reflexivity].
 Qed.
 
-Lemma J4_ht_phase now s : J4 s -> J4 (ht_phase now s).
+Lemma J4_ht_nak now s : J4 s -> J4 (ht_nak now s).
 Proof.
-  intros H. unfold ht_phase, c_limit_reached, c_timeout_occurred.
+  intros H. unfold ht_nak, c_timeout_occurred.
+  repeat (first [ destr_inner ]; cbn [fst snd]); try leaf4.
+Qed.
+Lemma J4_ht_ackphase now s : J4 s -> J4 (ht_ackphase now s).
+Proof.
+  intros H. unfold ht_ackphase, c_limit_reached, c_timeout_occurred.
   repeat (first [ callhf J4 J4_handle_fault tc leaf4 | call2 J4 (@abandon FS) J4_abandon leaf4
                 | call2 J4 (@set_fin_flag FS) J4_set_fin_flag leaf4 | destr_inner ]; cbn [fst snd]);
     try leaf4.
 Qed.
+Lemma J4_ht_phase now s : J4 s -> J4 (ht_phase now s).
+Proof. intros H. unfold ht_phase. apply J4_ht_ackphase. apply J4_ht_nak. exact H. Qed.
 
 Lemma J4_handle_timeout now s : J4 s -> J4 (handle_timeout now s).
 Proof.
